@@ -281,6 +281,9 @@ class Monitor:
         pay = sum(s for (_, s, _) in self.stored)
         if size > 2 * pay:
             self.report("C19/size-exceeds-twice-payload", "size()=%d but the constants own only %d bytes (C19_quirk_cost: size <= 2 * payload)" % (size, pay))
+        bud = sum(2 * s - 1 for (s, _, _) in self.adds)
+        if size > bud:
+            self.report("C19/size-exceeds-growth-bound", "size()=%d but the answered adds allow at most %d bytes (C19_size_growth_bound: sum of 2*s-1)" % (size, bud))
         if align != self.maxsize:
             self.report("C19/alignment-not-max", "alignment()=%d, largest constant added has %d bytes" % (align, self.maxsize))
         if self.adds:
